@@ -287,7 +287,7 @@ pub fn redex_of(kind: usize, rng: &mut Rng, cfg: &g::Cfg, depth: usize) -> fol::
         _ => {
             let f = formula(rng, cfg, d.saturating_sub(1));
             let q1 = quantifier(rng);
-            let q2 = if rng.chance(80) { q1.clone() } else { quantifier(rng) };
+            let q2 = if rng.chance(65) { q1.clone() } else { quantifier(rng) };
             let inner = binders_for(rng, cfg, &f);
             let body = quant(q2, inner.clone(), f);
             let mut outer = binders_for(rng, cfg, &body);
